@@ -79,7 +79,7 @@ def tighten(case, rng, what=("max_dist", "max_dist_init", "min_prob_norm")):
 
 
 def gen_mcase(rng, families=gen.FAMILIES, ne=None, width=False, agb=None, kinds=("random", "grid", "chain", "chain_dyadic"),
-              labels=("int", "int", "str", "gap", "nested"), hostile=True, tighten_p=0.35, cut=True, sparse_p=0.0, max_obs=10):
+              labels=("int", "intperm", "str", "gap", "nested"), hostile=True, tighten_p=0.35, cut=True, sparse_p=0.0, max_obs=10):
     if sparse_p and rng.random() < sparse_p:
         m, tr = gen.gen_sparse_chain_case(rng, labels=labels)
         if hostile:
